@@ -2,11 +2,11 @@
 From DJC Require Import Lib.Base Fault.Model.
 
 (* simplify projections of updated states (and boolean connectives on constructors) without unfolding the set operations *)
-Ltac sst := cbn [next fault cctx rend cattrs pcache prefs allrefs meta rctx cbs set_next set_fault up_cctx up_rend
-                 up_cattrs up_pcache up_prefs up_allrefs up_meta up_rctx up_cbs negb andb orb fst snd option_map].
+Ltac sst := cbn [next fault cctx rend cattrs pcache prefs allrefs meta rctx cbs cdicts set_next set_fault up_cctx up_rend
+                 up_cattrs up_pcache up_prefs up_allrefs up_meta up_rctx up_cbs up_cdicts negb andb orb fst snd option_map].
 Tactic Notation "sst" "in" hyp(H) :=
-  cbn [next fault cctx rend cattrs pcache prefs allrefs meta rctx cbs set_next set_fault up_cctx up_rend
-       up_cattrs up_pcache up_prefs up_allrefs up_meta up_rctx up_cbs negb andb orb fst snd option_map] in H.
+  cbn [next fault cctx rend cattrs pcache prefs allrefs meta rctx cbs cdicts set_next set_fault up_cctx up_rend
+       up_cattrs up_pcache up_prefs up_allrefs up_meta up_rctx up_cbs up_cdicts negb andb orb fst snd option_map] in H.
 Ltac splits := repeat match goal with |- _ /\ _ => split end.
 
 Lemma mem_nil x : mem x [] = false.
